@@ -16,6 +16,11 @@
 // actualCall("f").returnValue() / getData("slot")), then what each of the 13 accessors of the family hands back for A (one fixture
 // run per accessor; ":fail" as above).  Strings and buffers live on the heap, so the stale bytes under a later store are real
 // 64-bit addresses with a non-zero upper half.
+// ":st <box> <cmpmask> <copmask> <nA> <store>*nA <nB> <store>*nB": as ":ru" (boxes :named / :data / :datac, the MockNamedValue getters), but a
+// store may also be ":o <type 0..2> <const 0|1> <object 0..3>" -- setObjectPointer / setConstObjectPointer (mock().setDataObject /
+// setDataConstObject, the C table's) of an object of one of three custom types; bit i of cmpmask / copmask: a comparator / a copier for
+// custom type i is installed (mock().installComparator / installCopier -- the global mock's repository is MockNamedValue's default one) while
+// the stores happen.  The comparators answer `false` for an address that is not one of their type's objects (and never read through it).
 // ":em <iface> <arena> <ref> <len> <ref> <len>" / ":es <iface> <arena> <ref> <ref>" / ":ev <iface> <value> <value>": by-content values AT THE
 // EDGES OF THEIR REPRESENTATION.  <ref> is "~" (a NULL pointer) or an offset into ONE exactly-sized heap block (":es": followed by one NUL),
 // so a buffer may be (NULL, 0), (non-null, 0) -- also at the one-past-the-end address --, the same object on both sides, ...; ":ev" takes any
@@ -111,6 +116,29 @@ static std::string pS(const char* s) { return ":s " + hstr(s); }
 static std::string pA(const void* p) { return ":a " + hx((unsigned long long)(uintptr_t)p); }
 static std::string pF(fptr_t p) { return ":a " + hx((unsigned long long)(uintptr_t)p); }
 
+// custom types for the ":o" stores
+struct CObj { int v; };
+static CObj gObjs[3][4] = { { {0}, {0}, {1}, {1} }, { {0}, {0}, {1}, {1} }, { {0}, {0}, {1}, {1} } };
+static const char* gTyName[3] = { "TyA", "TyB", "TyC" };
+class CObjComparator : public MockNamedValueComparator
+{
+public:
+    int ty;
+    bool mine(const void* p) const { for (int k = 0; k < 4; k++) if (p == &gObjs[ty][k]) return true; return false; }
+    virtual bool isEqual(const void* o1, const void* o2) CPPUTEST_OVERRIDE
+    {
+        if (!mine(o1) || !mine(o2)) return false;
+        return ((const CObj*)o1)->v == ((const CObj*)o2)->v;
+    }
+    virtual SimpleString valueToString(const void* o) CPPUTEST_OVERRIDE { return mine(o) ? StringFrom(((const CObj*)o)->v) : SimpleString("?"); }
+};
+class CObjCopier : public MockNamedValueCopier
+{
+public:
+    virtual void copy(void* out, const void* in) CPPUTEST_OVERRIDE { ((CObj*)out)->v = ((const CObj*)in)->v; }
+};
+static CObjComparator gCmp[3]; static CObjCopier gCop[3];
+
 static void parseStored(Toks& t, Stored& s)
 {
     s = Stored();
@@ -122,6 +150,7 @@ static void parseStored(Toks& t, Stored& s)
     else if (s.tag == ":s") { std::string x; if (t.bytes(x)) { keep.push_back(x); s.str = keep.back().c_str(); } else s.isNull = true; }
     else if (s.tag == ":p" || s.tag == ":cp" || s.tag == ":f") s.addr = (uintptr_t)t.u();
     else if (s.tag == ":m") { std::string x; t.bytes(x); keep.push_back(x); s.mem = (const unsigned char*)keep.back().data(); s.memLen = keep.back().size(); }
+    else if (s.tag == ":o") { s.ity = (int)t.u(); s.b = t.u() != 0; s.z = (long long)t.u(); if (s.ity > 2 || s.z > 3) { fprintf(stderr, "bad object\n"); exit(3); } }
     else { fprintf(stderr, "bad stored tag %s\n", s.tag.c_str()); exit(3); }
 }
 static void parseDefault(Toks& t, Dflt& d)
@@ -153,6 +182,7 @@ static void storeNamed(MockNamedValue& v, const Stored& s)
     else if (s.tag == ":p") v.setValue((void*)s.addr);
     else if (s.tag == ":cp") v.setValue((const void*)s.addr);
     else if (s.tag == ":f") v.setValue((fptr_t)s.addr);
+    else if (s.tag == ":o") { if (s.b) v.setConstObjectPointer(gTyName[s.ity], &gObjs[s.ity][s.z]); else v.setObjectPointer(gTyName[s.ity], &gObjs[s.ity][s.z]); }
     else v.setMemoryBuffer(s.mem, s.memLen);
 }
 static void storeCpp(MockExpectedCall& e, const Stored& s)
@@ -377,6 +407,7 @@ static void storeData(const Stored& s)
     else if (s.tag == ":p") mock().setData("slot", (void*)s.addr);
     else if (s.tag == ":cp") mock().setData("slot", (const void*)s.addr);
     else if (s.tag == ":f") mock().setData("slot", (fptr_t)s.addr);
+    else if (s.tag == ":o") { if (s.b) mock().setDataConstObject("slot", gTyName[s.ity], &gObjs[s.ity][s.z]); else mock().setDataObject("slot", gTyName[s.ity], &gObjs[s.ity][s.z]); }
     else { fprintf(stderr, "setData has no overload for this value\n"); exit(3); }
 }
 static void storeDataC(const Stored& s)
@@ -389,6 +420,7 @@ static void storeDataC(const Stored& s)
     else if (s.tag == ":p") mock_c()->setPointerData("slot", (void*)s.addr);
     else if (s.tag == ":cp") mock_c()->setConstPointerData("slot", (const void*)s.addr);
     else if (s.tag == ":f") mock_c()->setFunctionPointerData("slot", (fptr_t)s.addr);
+    else if (s.tag == ":o") { if (s.b) mock_c()->setDataConstObject("slot", gTyName[s.ity], &gObjs[s.ity][s.z]); else mock_c()->setDataObject("slot", gTyName[s.ity], &gObjs[s.ity][s.z]); }
     else { fprintf(stderr, "the C table has no setXData for this value\n"); exit(3); }
 }
 // the tasks from gCursor on, A given as a MockNamedValue
@@ -446,11 +478,19 @@ static void reuseBody()
 }
 static bool runReuse(Toks& t, Out& o)
 {
-    if (t.end() || t.t[t.i] != ":ru") return false;
-    t.next();
+    if (t.end() || (t.t[t.i] != ":ru" && t.t[t.i] != ":st")) return false;
+    bool stale = t.next() == ":st";
     static const char* boxes[] = { ":named", ":ret", ":retc", ":data", ":datac" };
     static const char* fams[] = { ":nv", ":ac", ":acd", ":ms", ":msd", ":cac", ":cacd", ":cms", ":cmsd", ":cact", ":cmst" };
-    std::string b = t.next(), f = t.next();
+    std::string b = t.next(), f = stale ? std::string(":nv") : t.next();
+    if (stale) {
+        unsigned long long cm = t.u(), pm = t.u();
+        for (int k = 0; k < 3; k++) {
+            gCmp[k].ty = k;
+            if ((cm >> k) & 1) mock().installComparator(gTyName[k], gCmp[k]);
+            if ((pm >> k) & 1) mock().installCopier(gTyName[k], gCop[k]);
+        }
+    }
     int bi = -1, fi = -1;
     for (int k = 0; k < 5; k++) if (b == boxes[k]) bi = k;
     for (int k = 0; k < 11; k++) if (f == fams[k]) fi = k;
@@ -476,6 +516,7 @@ static bool runReuse(Toks& t, Out& o)
         mock().clear();
         if (gCursor < 13) gCursor++;
     }
+    if (stale) mock().removeAllComparatorsAndCopiers();
     for (int k = 0; k < 14; k++) o << gTaskRes[k];
     o.flush();
     return true;
